@@ -359,9 +359,9 @@ def run_under_sim(ch, main_fn, *, solver="yices", plan=None, fault_rate=0.0, kin
               keep_log=keep_log)
     stub = stub_cls(sim, ch, solver=solver, plan=plan, fault_rate=fault_rate, kinds=kinds, latency=latency)
     out.sim, out.stub = sim, stub
-    if interrupt is not None:
-        # (steps, handler): a signal handler run on the main task's stack at one of its scheduling points
-        sim.set_interrupt("main", interrupt[0], interrupt[1])
+    for steps_, handler_ in (interrupt or []):
+        # (steps, handler): a signal handler run on the main task's stack at one of its call-boundary scheduling points
+        sim.set_interrupt("main", steps_, handler_)
     seams = Seams()
     uid = UidSeam(ch, uid_mode)
     from .engine import EngineSeams
